@@ -9,15 +9,53 @@ import (
 	"verif/internal/ev"
 )
 
+// MintMon: "tokens only move between accounts or are burned" - any mint of the bond denomination inside a monitored step
+// is a violation even when burns in the same step hide it from the net supply. Needs a FlowRec before it.
+type MintMon struct {
+	BaseMon
+	Run   *ev.Run
+	Hist  string
+	FR    *FlowRec
+	Steps int
+}
+
+func (m *MintMon) look(s *Sim, what, class string, step int) {
+	m.Steps++
+	for _, f := range m.FR.Flows {
+		if f.Kind == "mint" && f.Amount.AmountOf(s.Denom).IsPositive() {
+			m.Run.Violation("tokens-minted", class, fmt.Sprintf("%s: %s appeared on %s without leaving another account (hidden from the net supply by burns of the same step or not)", what, f.Amount, f.To),
+				map[string]any{"history": m.Hist, "seed": s.Seed, "profile": s.prof.Name, "step": step, "log_tail": s.LogTail(20)})
+		}
+	}
+}
+
+func (m *MintMon) AfterTx(s *Sim, r *TxRes) {
+	if r.OK() {
+		m.look(s, "tx "+r.Name+" "+r.Desc, "tx:"+r.Name, r.Step)
+	}
+}
+
+func (m *MintMon) AfterBlock(s *Sim, b *BlockRes) {
+	if b.Panic == "" {
+		m.look(s, fmt.Sprintf("block %d", b.Height), "block", b.Step)
+	}
+}
+
 func TestC09(t *testing.T) {
 	run := ev.Start("C09")
 	nHist, nOps := run.Pick(10, 120), run.Pick(900, 2500)
 	for h := 0; h < nHist; h++ {
 		var sm *SupplyMon
-		s := History(t, run, profEconomic(), h, nOps, func(id string) []Monitor {
+		var mm *MintMon
+		prof := profEconomic()
+		prof.W["param_burn"] = 2 // fractional leftover burn rates
+		s := History(t, run, prof, h, nOps, func(id string) []Monitor {
 			sm = &SupplyMon{Run: run, Hist: id}
-			return []Monitor{sm, &EventCounter{Run: run}}
+			fr := &FlowRec{}
+			mm = &MintMon{Run: run, Hist: id, FR: fr}
+			return []Monitor{sm, fr, mm, &EventCounter{Run: run}}
 		})
+		run.Count("steps_scanned_for_mints", mm.Steps)
 		run.Count("supply_checks", sm.Steps)
 		run.Count("steps_that_burned", sm.Burns)
 		months := int(s.TS.Ctx.BlockTime().Sub(s.t0).Hours() / 24 / 30)
@@ -35,7 +73,7 @@ func TestC09(t *testing.T) {
 	for _, e := range []string{"ds_claim", "fund_iprpc", "buy", "slash"} {
 		run.Require("successful "+e, run.Counter("ok:"+e) > 0)
 	}
-	run.Finish("long-horizon economic histories (subscriptions, IPRPC funds, stakes, delegations, claims, slashes, refills over months of block time); total supply of every denomination sampled around every tx, BeginBlock and EndBlock: any increase is a violation (decreases = burns are counted); a history is non-trivial when it crossed >= 3 months and burned at least once", nHist/2,
+	run.Finish("long-horizon economic histories (subscriptions, IPRPC funds, stakes, delegations, claims, slashes, refills over months of block time); total supply of every denomination sampled around every tx, BeginBlock and EndBlock: any increase is a violation (decreases = burns are counted), and so is any mint of the bond denomination seen in the bank flow log of a step even when burns of the same step hide it; a history is non-trivial when it crossed >= 3 months and burned at least once", nHist/2,
 		"supply = sum of the mock bank's balances (x/bank itself is trusted)", "harness funding of new accounts happens outside monitored steps")
 }
 
